@@ -314,7 +314,7 @@ def run(chk, facts):
     counts0 = dict(chk.counts)
     c18.run(chk, facts)
     keep = [o for o in chk.obligations[n0:] if o["key"] in ("R-C18-2|Token::end:line-breaks", "R-C18-2|Token::end:no-break", "R-C18-2|State::token:advance", "R-C18-2|Lex::new:end=token.end(start)", "R-C18-2|State::newline",
-                                                             "R-C18-5|offset-recorded", "R-C18-5|error-offset-applied", "R-C18-2|anchor", "R-C18-5|anchor")]
+                                                             "R-C18-5|offset-recorded", "R-C18-5|error-offset-applied", "R-C18-5|offset-function", "R-C18-2|anchor", "R-C18-5|anchor")]
     chk.obligations = chk.obligations[:n0] + keep
     chk.rules = rules0
     chk.rules["R-C18-2"] = "line bookkeeping of the lexer (shared with C18): a token ends on line + number of its line breaks; a newline moves to the next line, column 1; interpolated text and its lexical errors are shifted by the recorded offset"
